@@ -12,6 +12,7 @@ from mirsym.harness import *
 from mirsym.engine import NONE, SOME, OK, StubFuture
 
 ID = 'C26'
+TECHNIQUE = 'symbolic execution of rustc MIR (path-forking) + z3 SMT queries per path; clock as an arbitrary monotone function; path witnesses validated natively on the public half, violations reported on the solver verdict (deciding async fn is private)'
 CRATES = ['jj-lib']
 NATIVE = 'c26'
 NATIVE_CONFIRM = False      # the deciding function (get_updated_tree_value) is private and async: counterexamples cannot be re-run through the public API;
